@@ -46,24 +46,39 @@ Which == {"first", "mid", "last"}
 (* ------------------------- what a reader may do ------------------------- *)
 Terminates(op) == op.status \in {"ok", "error"}            \* not "panic" (an abort or a hang kills the harness: reported there)
 HandsOut(op) == "delivered" \in DOMAIN op
-\* damage that a later truncation cut off again (`cut`) did not happen
-OnlyTruncated(dmgs) == \A i \in 1..Len(dmgs) : dmgs[i].kind = "trunc" \/ dmgs[i].cut
+\* damage that a later truncation cut off again (`cut`), or an overwrite with the byte already there (`noop`), did not happen
+OnlyTruncated(dmgs) == \A i \in 1..Len(dmgs) : dmgs[i].kind = "trunc" \/ dmgs[i].cut \/ dmgs[i].noop
 Noop(dmgs) == \A i \in 1..Len(dmgs) : dmgs[i].noop
 
 \* an operation that returns no data (opening an sst) is trivially the same
 IsSame(op) == IF "same" \in DOMAIN op THEN op.same ELSE TRUE
-\* C09 for one operation on a file damaged by `dmgs`
+HasTruncation(dmgs) == \E i \in 1..Len(dmgs) : dmgs[i].kind = "trunc"
+\* C09 for one operation on a file damaged by `dmgs`.  For an append-only file that was (also) truncated, `base` is
+\* what the same reader did with the file truncated only: further damage may turn that into an error, not into
+\* anything else.
 Sound(f, dmgs, op) ==
   /\ Terminates(op)
   /\ (HandsOut(op) => op.exact)
   /\ (op.status = "ok" =>
         \/ IsSame(op)
-        \/ (AppendOnly(f) /\ OnlyTruncated(dmgs) /\ (HandsOut(op) => op.exact) /\ ("prefix" \in DOMAIN op => op.prefix >= 0)))
+        \/ (AppendOnly(f) /\ OnlyTruncated(dmgs) /\ (HandsOut(op) => op.exact) /\ ("prefix" \in DOMAIN op => op.prefix >= 0))
+        \/ (AppendOnly(f) /\ HasTruncation(dmgs) /\ "base" \in DOMAIN op /\ op.base >= 0
+             /\ (HandsOut(op) => op.exact /\ op.delivered = op.base) /\ ("prefix" \in DOMAIN op => op.prefix = op.base)))
 \* an undamaged file (an overwrite with the byte already there) reads as before
 Unchanged(op) == op.status = "ok" /\ ("same" \in DOMAIN op => op.same)
 
 \* informative classification (not demanded by C09): did the reader notice?
 Noticed(ops) == \E i \in 1..Len(ops) : ops[i].status = "error"
+
+(* The open finding FinalBlockSteersStore: lsmtk takes an sst's smallest / biggest timestamp and setsum from the    *)
+(* file's final block, which no checksum covers, and derives from them the next sequence number, the read          *)
+(* timestamp and the order of files during recovery.  Damage there can leave every file readable and still change  *)
+(* what point reads return.  The class: a whole store, every effective damage inside the final block of an sst,     *)
+(* and a read that completed with different data.                                                                  *)
+Effective(d) == ~d.noop /\ ~d.cut
+FinalBlockSteersStore(f, dmgs, op) ==
+  /\ f = "store" /\ op.op \in {"get", "scan"} /\ op.status = "ok"
+  /\ \A i \in 1..Len(dmgs) : Effective(dmgs[i]) => (dmgs[i].target = "sst" /\ dmgs[i].rkind = "final")
 
 \* operations that judge the data; "meta" reads the unchecksummed final block's summary fields (setsum,
 \* smallest / biggest timestamp) which C09 does not list: it must terminate, nothing more
